@@ -86,6 +86,8 @@ void compare_state(Ctx &c, Model &m, const char *after)
 	CHECK(c, rem == (int)((int64_t)m.size - (int64_t)m.cursor), "after %s: rf_pack_remaining=%d, expected %lld", after,
 	      rem, (long long)((int64_t)m.size - (int64_t)m.cursor));
 	const uint8_t *b = ap_buf();
+	if (m.size == 0 || memcmp(b, m.img.data(), m.size) == 0)
+		return;
 	for (unsigned i = 0; i < m.size && !c.failed; i++)
 		CHECK(c, b[i] == m.img[i], "after %s: buffer byte %u is 0x%02x, expected 0x%02x", after, i, b[i], m.img[i]);
 }
@@ -103,8 +105,17 @@ void h_run(Ctx &c)
 	Tape &t = c.t;
 	Model m;
 	unsigned maxsize = (unsigned)c.param("maxsize", 64);
-	m.size = (unsigned)t.choose(maxsize + 1);
-	unsigned fillmode = t.enumerating ? 1 : t.choose(3);
+	// "any buffer size": one case in six uses a buffer (and byte arrays) around and beyond 2^8 and 2^16 bytes,
+	// where a narrowed length or cursor type would first show
+	static const unsigned BIGSZ[] = { 255, 256, 257, 300, 511, 512, 513, 1000, 4096, 65535, 65536, 65537, 70000 };
+	static const unsigned BIGN[] = { 250, 255, 256, 257, 260, 300, 511, 512, 513, 1000, 65534, 65535, 65536, 65537, 66000 };
+	bool big = !t.enumerating && c.feat(2) && c.param("big", 1) && t.weighted({ 5, 1 }) == 1;
+	if (big) {
+		m.size = BIGSZ[t.choose(sizeof BIGSZ / sizeof *BIGSZ)];
+		c.cls("big-buffer");
+	} else
+		m.size = (unsigned)t.choose(maxsize + 1);
+	unsigned fillmode = t.enumerating ? 1 : t.choose(big ? 2 : 3);
 	m.img.resize(m.size);
 	for (unsigned i = 0; i < m.size; i++)
 		m.img[i] = fillmode == 0 ? 0xA5 : fillmode == 1 ? (uint8_t)(i * 37 + 11) : (uint8_t)t.choose(256);
@@ -145,14 +156,23 @@ void h_run(Ctx &c)
 			if (kind == 4) {
 				int64_t left = (int64_t)m.size - (int64_t)m.cursor;
 				int64_t want = left + (int64_t)t.choose(3) - 1; // one short, exact, one too many
-				n = want < 0 ? 0 : want > 80 ? 80 : (unsigned)want;
-			} else
+				n = want < 0 ? 0 : (want > 80 && !big) ? 80 : (unsigned)want;
+			} else if (big && t.flip())
+				n = BIGN[t.choose(sizeof BIGN / sizeof *BIGN)];
+			else
 				n = (unsigned)t.choose(t.enumerating ? 5 : 41);
+			if (n >= 256)
+				c.cls("byte-array>=256");
 			bool null = t.weighted({ 3, 1 }) == 1;
 			std::vector<uint8_t> data(n);
 			if (!unpack) {
-				for (auto &b : data)
-					b = t.enumerating ? (uint8_t)(0xC0 + step) : (uint8_t)t.choose(256);
+				if (big) {
+					unsigned salt = t.choose(256), k = 0;
+					for (auto &b : data)
+						b = (uint8_t)(salt + 13 * k++);
+				} else
+					for (auto &b : data)
+						b = t.enumerating ? (uint8_t)(0xC0 + step) : (uint8_t)t.choose(256);
 				snprintf(what, sizeof what, "pack_bytes(%s, %u)", null ? "NULL" : "src", n);
 				ap_pack_bytes(data.data(), null, n);
 				long at = m.transfer(n);
